@@ -38,7 +38,7 @@ func callsEffectField(ins ssa.Instruction) bool {
 func runC11(c *core.Ctx) {
 	p := c.P
 	c.Rule("R1", "builders are lazy: no dynamic call and no evaluator call in the own body of any function that constructs or configures a MonadIO", 7)
-	c.Rule("R1b", "the effect of an existing MonadIO is never overwritten: the effect field is only initialised inside a freshly allocated MonadIODef", 3)
+	c.Rule("R1b", "the effect of an existing MonadIO is never overwritten: the effect field is only initialised inside a freshly allocated MonadIODef", 1)
 	c.Rule("R2", "once per evaluation: evaluator calls the effect exactly once on every path and returns it; Eval delegates once; FlatMap's closure = eval(receiver) → fn(result) → eval(fn's result), each exactly once; Just's closure returns its captured value", 4)
 	c.Rule("R3", "Subscribe routing: everything under OnNext != nil; exactly one of {obOn.Post(doOb), doOb()} chosen by obOn != nil; inside, one evaluation then exactly one of {subOn.Post(doSub), doSub()}; doSub calls OnNext once with the evaluated value", 4)
 	// evaluation: a call of the effect field of a MonadIO, or of a wrapper - a top-level function that calls the effect of
